@@ -207,12 +207,20 @@ class C07(Prop):
         out = []
         for c, r in zip(cases, res):
             rows = [[x[0], x[1], x[2], x[3], x[4], x[5], x[6]] for x in r]
+            scheds = sorted({i for op in c["ops"] if op["kind"] == 3 for i, *_ in op["enc"][2]})
+            for i in scheds:
+                for which in (0, 1):
+                    m = model.call("routed_schedule", 2 * i + which)
+                    rows.append([5, i, which, 0, 0, 1, [[1, (m[0] if m else -1)]], 0, 55])
             out.append(sorted(rows))
         return out
 
     def obs(self, c, b):
-        # parameters created by the device itself (control, profile) are outside the handler model
-        return sorted([row[:7] for row in b if row[0] in (0, 1, 2)])
+        # parameters created by the device itself (control, profile) are outside the handler model; schedule switches / parameters:
+        # the schedule their request is routed to
+        rows = [row[:7] for row in b if row[0] in (0, 1, 2)]
+        rows += [[5, row[1], row[2], (row[6][0][1] if len(row[6][0]) > 1 and row[6][0][0] != "exception" else -1)] for row in b if row[0] == 5]
+        return sorted(rows)
 
     def _latest(self, c, lenient=False):
         """(tag, sub, position) -> raw value of the slot at that wire position in the latest response defining it.
